@@ -16,7 +16,7 @@ Separate Extraction
   DiffJson.mismatches DiffJson.mismatches_at DiffJson.annotate DiffJson.apply_json DiffJson.olds DiffJson.news
   DiffUnified.apply DiffUnified.merge DiffUnified.view DiffUnified.olds DiffUnified.news
   Sched.find_bad_schedule Sched.run Sched.pending Sched.threads_of Sched.mono_prog
-  CliModel.run CliModel.level CliModel.diff_printed
+  CliModel.run CliModel.level CliModel.diff_printed CliModel.stdin_run
   SortReq.sort_requires SortReq.str_leb SortReq.groups
   CfgSearch.run CfgSearch.spec CfgSearch.resolve Select.processed Select.wanted.
 Cd "../../coq".
